@@ -3,6 +3,7 @@
 
 use metrique::CloseValue;
 use metrique_aggregation::histogram::{
+    AggregationStrategy, SharedAggregationStrategy,
     AtomicExponentialAggregationStrategy, ExponentialAggregationStrategy, Histogram, HistogramClosed, SharedHistogram, SortAndMerge,
 };
 use metrique_aggregation::traits::AggregateValue;
@@ -232,6 +233,144 @@ fn case<T: MetricValue + Clone + Send + Sync + 'static>(values: &[T], small_coun
     true
 }
 
+fn obs_list(v: &[Observation]) -> Vec<(f64, u64)> {
+    v.iter()
+        .map(|o| match *o {
+            Observation::Repeated { total, occurrences } => (total, occurrences),
+            Observation::Unsigned(u) => (u as f64, 1),
+            Observation::Floating(f) => (f, 1),
+            _ => (f64::NAN, 0),
+        })
+        .collect()
+}
+
+/// `drain()` is documented to reset a strategy: several recording windows through ONE strategy
+/// object, drained in between, the last window through a histogram built around the used strategy.
+/// Every window's output must account for that window's observations only.
+fn windows_history(rng: &mut Rng, bounds: &[u64], rep: &Report) -> bool {
+    let nwin = 2 + rng.usize_below(3);
+    let kind = rng.below(3);
+    let wins: Vec<Vec<(f64, u64)>> = (0..nwin)
+        .map(|w| {
+            let n = if rng.below(5) == 0 { 0 } else { 1 + rng.usize_below(if is_miri() { 4 } else { 40 }) };
+            (0..n)
+                .map(|_| {
+                    let top = *rng.pick(&[1u64, 5, 1 << 20]);
+                    (gen_value(rng, bounds), if w + 1 == nwin || kind == 1 { 1 } else { 1 + rng.below(top) })
+                })
+                .collect()
+        })
+        .collect();
+    let name = ["ExponentialAggregationStrategy", "SortAndMerge", "AtomicExponentialAggregationStrategy"][kind as usize];
+    let ctx = |w: usize| format!("{name}: window {} of {nwin} through one strategy object (windows before it: {:?} observations)", w + 1, wins[..w].iter().map(|x| x.len()).collect::<Vec<_>>());
+    let last = &wins[nwin - 1];
+    let ok = match kind {
+        0 => {
+            let mut s = ExponentialAggregationStrategy::new();
+            for (w, win) in wins[..nwin - 1].iter().enumerate() {
+                for (v, n) in win {
+                    s.record_many(*v, *n);
+                }
+                if !check_exponential(win, &obs_list(&s.drain()), &ctx(w), rep) {
+                    return false;
+                }
+            }
+            let mut h: Histogram<f64, ExponentialAggregationStrategy> = Histogram::new(s);
+            for (v, _) in last {
+                h.add_value(v);
+            }
+            check_exponential(last, &closed_obs(&h.close()), &ctx(nwin - 1), rep)
+        }
+        1 => {
+            let mut s: SortAndMerge = SortAndMerge::new();
+            for (w, win) in wins[..nwin - 1].iter().enumerate() {
+                for (v, n) in win {
+                    s.record_many(*v, *n);
+                }
+                if !check_sort_merge(win, &obs_list(&s.drain()), &ctx(w), rep) {
+                    return false;
+                }
+            }
+            let mut h: Histogram<f64, SortAndMerge> = Histogram::new(s);
+            for (v, _) in last {
+                h.add_value(v);
+            }
+            check_sort_merge(last, &closed_obs(&h.close()), &ctx(nwin - 1), rep)
+        }
+        _ => {
+            let s = AtomicExponentialAggregationStrategy::new();
+            for (w, win) in wins[..nwin - 1].iter().enumerate() {
+                for (v, n) in win {
+                    s.record_many(*v, *n);
+                }
+                if !check_exponential(win, &obs_list(&s.drain()), &ctx(w), rep) {
+                    return false;
+                }
+            }
+            let h: SharedHistogram<f64, AtomicExponentialAggregationStrategy> = SharedHistogram::new(s);
+            for (v, _) in last {
+                h.add_value(*v);
+            }
+            check_exponential(last, &closed_obs(&h.close()), &ctx(nwin - 1), rep)
+        }
+    };
+    if ok {
+        rep.count("strategy_reuse_windows_checked", nwin as u64);
+    }
+    ok
+}
+
+/// 2-4 threads, released together, each add ONE or two values of very different magnitude to a fresh
+/// shared histogram: the first records into an empty histogram race with each other
+fn aligned_round(rng: &mut Rng, bounds: &[u64], rep: &Report) -> bool {
+    let nthreads = if is_miri() { 2 } else { 2 + rng.usize_below(3) };
+    let per = 1 + rng.usize_below(2);
+    let vals: Vec<Vec<f64>> = (0..nthreads).map(|_| (0..per).map(|_| gen_value(rng, bounds)).collect()).collect();
+    let sh: Arc<SharedHistogram<f64, AtomicExponentialAggregationStrategy>> = Arc::new(SharedHistogram::default());
+    let gate = Arc::new(std::sync::atomic::AtomicUsize::new(0));
+    let ts: Vec<_> = vals
+        .iter()
+        .cloned()
+        .map(|mine| {
+            let (sh, gate) = (sh.clone(), gate.clone());
+            std::thread::spawn(move || {
+                gate.fetch_add(1, std::sync::atomic::Ordering::SeqCst);
+                let mut spins = 0u32;
+                while gate.load(std::sync::atomic::Ordering::SeqCst) < nthreads {
+                    spins += 1;
+                    if spins > 2000 {
+                        std::thread::yield_now();
+                    } else {
+                        std::hint::spin_loop();
+                    }
+                }
+                for v in mine {
+                    sh.add_value(v);
+                }
+            })
+        })
+        .collect();
+    for t in ts {
+        let _ = t.join();
+    }
+    let out = closed_obs(&Arc::try_unwrap(sh).ok().expect("sole owner").close());
+    let mut h: Histogram<f64, ExponentialAggregationStrategy> = Histogram::default();
+    for v in vals.iter().flatten() {
+        h.add_value(v);
+    }
+    let want = closed_obs(&h.close());
+    if let Some(i) = same_lists(&want, &out, 0) {
+        rep.violation(
+            "concurrent-atomic-differs",
+            json!({"ctx": "threads released together, each adding its values to a fresh SharedHistogram", "values_per_thread": vals, "index": i,
+                   "sequential_non_atomic": want, "concurrent_atomic": out}),
+        );
+        return false;
+    }
+    rep.count("aligned_concurrent_rounds", 1);
+    true
+}
+
 /// every boundary of the (4,64) layout below 2^53 (scaled), computed from the formula
 fn boundaries() -> Vec<u64> {
     let mut b: Vec<u64> = (0..32).collect();
@@ -320,6 +459,7 @@ fn main() {
         "value multisets: every boundary of the (4,64) layout (from the formula) below 2^53 scaled, each +-1, divided by 1024; log-uniform values in [0,2^43); the linear region below 1/32 densely; \
          repeated observations with counts up to 2^40 (exponential) / 10^3 (sort-and-merge); sources u64, u32, f64, Duration, AsSeconds/AsMicroseconds<Duration>. For each multiset: Histogram<_,Exponential>, \
          SharedHistogram (atomic) single-threaded and with 2-8 threads adding the same multiset, Histogram<_,SortAndMerge>, and re-aggregation of the closed value into a fresh histogram of the same strategy. \
+         Also: 2-4 recording windows through ONE strategy object with drain() in between (documented to reset), the last through Histogram::new(used strategy); and 2-4 threads released together each adding 1-2 values to a fresh SharedHistogram. \
          Oracle: total occurrences conserved; sorted matching of inputs to reported buckets within 6.25% (1/1024 absolute below 1/32); atomic == non-atomic == concurrent; sort-and-merge exact; re-aggregation unchanged. \
          distinct = distinct (source kind, size, draw) classes",
     );
@@ -356,8 +496,13 @@ fn main() {
                 while (start.elapsed() < budget || rounds < 3) && rep.violation_count() == 0 {
                     rounds += 1;
                     rep.eval();
-                    if !run_random(&mut rng, bounds, rep) {
+                    if !run_random(&mut rng, bounds, rep) || !windows_history(&mut rng, bounds, rep) {
                         return;
+                    }
+                    for _ in 0..if is_miri() { 1 } else { 6 } {
+                        if !aligned_round(&mut rng, bounds, rep) {
+                            return;
+                        }
                     }
                     if is_miri() && rounds >= 6 {
                         break;
